@@ -605,6 +605,12 @@ func PreprocessDeclarationsPrelude(baseURL string, declarations []pa.Compound, p
 			if err != nil {
 				return nil, err
 			}
+			// Keep the source order : the declarations seen so far come before
+			// the nested rule (and lose against it when specificities are equal).
+			if len(ownDecls) > 0 {
+				out = append(out, KeyedDeclarations{selectors, ownDecls})
+				ownDecls = nil
+			}
 			out = append(out, contents...)
 		}
 
@@ -686,7 +692,9 @@ func PreprocessDeclarationsPrelude(baseURL string, declarations []pa.Compound, p
 		}
 	}
 
-	out = append(out, KeyedDeclarations{selectors, ownDecls})
+	if len(ownDecls) > 0 || len(out) == 0 {
+		out = append(out, KeyedDeclarations{selectors, ownDecls})
+	}
 
 	return out, nil
 }
